@@ -177,7 +177,7 @@ def run(prop, tier, seed, replay=None):
         rep.sample({"direction": e["ev"], "codec": e["codec"], "schema": e["s"], "values": len(e["vals"]), "file_len": len(e["bytes"]),
                     "meta_layout": e.get("meta", ""), "partition": e.get("part", [])})
     rep.assumptions += ["Python zlib (raw deflate), bz2 and lzma are the reference codecs (sanctioned by the property); snappy and zstandard blocks written by the library are checked structurally only (no reference codec on this image; snappy is decoded in TLA+ by the C15 check)",
-                        "the embedded schema of a written file is compared with the writer schema by re-parsing it with the crate (its JSON round trip is property C10)",
+                        "the header must embed exactly serde_json::to_string(writer schema); that this JSON denotes the schema is property C10 (which has a known finding for null-namespace names inside a namespace)",
                         "reference-compressed files are assembled by the Python glue from TLC's null-codec file (same partition and metadata)"]
     rep.classify(verdicts, lambda i: {"event": {k: v for k, v in events[i].items() if k != "plains"}})
     return rep.finish()
